@@ -315,3 +315,142 @@ Proof.
   - destruct (process_justification_tq cfg s j) as [H|H]; [left; exact H|right; auto].
   - destruct (process_justification_tq cfg s j) as [H|H]; [left; exact H|right; auto].
 Qed.
+
+(* ================================================================== *)
+(* 5. a recorded timeout view of the current view or later has its bit *)
+(* ================================================================== *)
+(* the converse of the cache invariant's ownership: while the node has not left view v, a key
+   recorded with view v is a signer of the certificate under construction for v *)
+Definition TB (cfg : config) (s : rstate) : Prop :=
+  forall h v, zmap_get (r_timeout_views s) h = Some v -> r_view s <= v -> hasTbit cfg s h v.
+
+Lemma hasTbit_ext cfg s s' h v : r_timeout_views s' = r_timeout_views s -> r_timeout_qcs s' = r_timeout_qcs s ->
+  hasTbit cfg s h v -> hasTbit cfg s' h v.
+Proof. intros E1 E2 H. unfold hasTbit in *. rewrite E1, E2. exact H. Qed.
+
+Lemma TB_keep cfg s s' : r_timeout_views s' = r_timeout_views s -> r_timeout_qcs s' = r_timeout_qcs s ->
+  r_view s <= r_view s' -> TB cfg s -> TB cfg s'.
+Proof.
+  intros E1 E2 Hle H h v Hg Hv. rewrite E1 in Hg. apply (hasTbit_ext cfg s s' h v E1 E2). apply H; [exact Hg|lia].
+Qed.
+
+Lemma TB_nil cfg s : r_timeout_views s = [] -> TB cfg s.
+Proof. intros E h v Hg. rewrite E in Hg. discriminate. Qed.
+
+Lemma keeps_tcaches {A} (x : hres A) s : RC.keeps (RC.caches s) x ->
+  r_timeout_views (st_of x) = r_timeout_views s /\ r_timeout_qcs (st_of x) = r_timeout_qcs s.
+Proof. intros H. unfold RC.keeps, RC.caches in H. injection H as _ _ H3 H4. auto. Qed.
+
+Lemma on_commit_tcaches cfg s key sg c : RC.cache_inv cfg s ->
+  r_timeout_views (st_of (on_commit cfg s key sg c)) = r_timeout_views s /\
+  r_timeout_qcs (st_of (on_commit cfg s key sg c)) = r_timeout_qcs s.
+Proof.
+  intros Hinv. destruct (on_commit_cases cfg s key sg c Hinv) as [(r & E & _)|(i0 & _ & _ & _ & _ & _ & E)]; rewrite E; [auto|].
+  unfold RC.on_commit_accept. cbv zeta. destruct (_ <? _); [auto|].
+  match goal with |- context [hbind (process_commit_qc cfg ?s2 ?q) _] =>
+    pose proof (RC.tail_keeps cfg (process_commit_qc cfg s2 q) (vnum (cview c)) _
+                  (RC.process_commit_qc_keeps cfg s2 q _ eq_refl)) as H end.
+  unfold RC.keeps, RC.caches in H. injection H as _ _ Htv Htq. auto.
+Qed.
+
+Lemma on_timeout_accept_tcaches cfg s key t i0 :
+  let s' := st_of (RC.on_timeout_accept cfg s key t i0) in
+  r_timeout_views s' = timeout_views' s key t /\
+  (r_timeout_qcs s' = timeout_qcs' cfg s key t i0 \/
+   ((tq_weight cfg (timeout_q cfg s key t i0) <? quorum (cC cfg)) = false /\
+    r_timeout_qcs s' = zmap_remove (timeout_qcs' cfg s key t i0) (vnum (tview t)))).
+Proof.
+  cbv zeta. destruct (tq_weight cfg (timeout_q cfg s key t i0) <? quorum (cC cfg)) eqn:Ew.
+  - rewrite (on_timeout_accept_low cfg s key t i0 Ew). unfold hret, st_of. cbn [fst set_timeout_caches r_timeout_views r_timeout_qcs]. auto.
+  - rewrite (on_timeout_accept_high_eq cfg s key t i0 Ew).
+    match goal with |- context [hbind (process_timeout_qc cfg ?s2 ?q) _] =>
+      pose proof (RC.tail_keeps cfg (process_timeout_qc cfg s2 q) (vnum (tview t)) _
+                    (RC.process_timeout_qc_keeps cfg s2 q _ eq_refl)) as H end.
+    unfold RC.keeps, RC.caches in H. injection H as _ _ Htv Htq. split; [exact Htv|right; auto].
+Qed.
+
+Lemma TB_accept cfg s key t i0 : RC.cache_inv cfg s -> cchk cfg = true ->
+  cindex (cC cfg) key = Some i0 -> (vnum (tview t) <? r_view s) = false ->
+  vgen (tview t) = cg cfg -> vepoch (tview t) = ce cfg ->
+  stopsA (snd (RC.on_timeout_accept cfg s key t i0)) = false ->
+  r_view s <= r_view (st_of (RC.on_timeout_accept cfg s key t i0)) ->
+  TB cfg s -> TB cfg (st_of (RC.on_timeout_accept cfg s key t i0)).
+Proof.
+  intros Hinv Hchk Hk Hold Hg He Hs Hmono HT.
+  set (s1 := set_timeout_caches s (timeout_views' s key t) (timeout_qcs' cfg s key t i0)).
+  assert (Hlen : Forall (fun en => length (snd en) = length (cC cfg)) (tqmap (RC.t0_of (r_timeout_qcs s) (tview t)))).
+  { destruct Hinv as [_ Hti]. cbn [RC.caches] in Hti.
+    destruct (RC.t0_ok _ _ _ _ _ (tview t) Hti Hg He) as (_ & Hq & _). cbn [snd] in Hq.
+    exact (tqc_inv_lengths _ _ _ _ Hq). }
+  assert (H1 : TB cfg s1 \/ True) by (right; exact I). clear H1.
+  assert (Hs1 : forall h v, zmap_get (r_timeout_views s1) h = Some v -> r_view s <= v -> hasTbit cfg s1 h v).
+  { intros h v Hg0 Hv. destruct (Z.eq_dec h key) as [->|Hne].
+    - unfold s1 in Hg0. rewrite (tupd_views_own cfg s key t i0) in Hg0. inversion Hg0; subst v.
+      apply (tupd_hasTbit_own cfg s key t i0 Hk Hlen).
+    - unfold s1 in Hg0. rewrite (tupd_views_other cfg s key t i0 h Hne) in Hg0.
+      apply (tupd_hasTbit_other cfg s key t i0 h v Hne). apply HT; assumption. }
+  destruct (on_timeout_accept_tcaches cfg s key t i0) as [Ev [Eq|[Ew Eq]]]; cbv zeta in Ev, Eq.
+  - intros h v Hg0 Hv. apply (hasTbit_ext cfg s1 _ h v Ev Eq). rewrite Ev in Hg0. apply Hs1; [exact Hg0|lia].
+  - rewrite (on_timeout_accept_high_eq cfg s key t i0 Ew) in *.
+    match type of Hs with context [hbind (process_timeout_qc cfg ?s2 ?q) _] =>
+      destruct (tail_view cfg (process_timeout_qc cfg s2 q) (vnum (tview t)) Hchk (process_timeout_qc_res _ _ _) Hs) as [_ Hv1] end.
+    intros h v Hg0 Hv. rewrite Hv1 in Hv. rewrite Ev in Hg0.
+    assert (Hne : h <> key).
+    { intros ->. change (timeout_views' s key t) with (r_timeout_views s1) in Hg0.
+      unfold s1 in Hg0. rewrite (tupd_views_own cfg s key t i0) in Hg0. inversion Hg0. lia. }
+    apply Z.ltb_ge in Hold.
+    destruct (Hs1 h v Hg0 ltac:(lia)) as (i1 & t1 & en & A1 & A2 & A3 & A4 & A5).
+    exists i1, t1, en. split; [exact A1|]. split; [rewrite Ev; exact A2|]. split; [|auto].
+    rewrite Eq. unfold zmap_remove.
+    rewrite (RC.zmap_get_filter (fun x => negb (x =? vnum (tview t)))).
+    destruct (v =? vnum (tview t)) eqn:E; [apply Z.eqb_eq in E; lia|]. cbn [negb]. exact A3.
+Qed.
+
+Lemma TB_step cfg s i : RC.cache_inv cfg s -> cchk cfg = true -> TB cfg s ->
+  stopsA (snd (rstep_t cfg s i)) = false -> TB cfg (st_of (rstep_t cfg s i)).
+Proof.
+  intros Hinv Hchk HT Hs.
+  pose proof (ReplicaMono.rstep_monotone cfg s i Hchk) as Hmono0.
+  assert (Hkeep : forall (x : hres unit), RC.keeps (RC.caches s) x -> r_view s <= r_view (st_of x) -> TB cfg (st_of x)).
+  { intros x Hk Hle. destruct (keeps_tcaches x s Hk) as [E1 E2]. exact (TB_keep cfg s _ E1 E2 Hle HT). }
+  assert (Hst : forall s1, r_view s <= r_view s1 -> r_timeout_views s1 = r_timeout_views s -> r_timeout_qcs s1 = r_timeout_qcs s ->
+                  TB cfg (st_of (start_timeout cfg s1))).
+  { intros s1 Hle E1 E2. pose proof (RC.start_timeout_keeps cfg s1 _ eq_refl) as Hk.
+    destruct (keeps_tcaches _ s1 Hk) as [F1 F2]. pose proof (start_timeout_le cfg s1) as Hl.
+    apply (TB_keep cfg s); [congruence|congruence| |exact HT].
+    destruct Hl as [Hl _]. change (ReplicaMono.st_of (start_timeout cfg s1)) with (st_of (start_timeout cfg s1)) in Hl. lia. }
+  destruct i as [m| |n h].
+  - destruct (m_msg m) as [p j|c|t|j] eqn:Em.
+    + (* proposal: caches kept, also under the added start_timeout *)
+      unfold rstep_t in *. cbn [rstep] in *. rewrite Em in *.
+      pose proof (RC.on_proposal_keeps cfg s (m_key m) (m_sig_ok m) p j _ eq_refl) as Hk.
+      destruct (keeps_tcaches _ s Hk) as [E1 E2].
+      destruct Hmono0 as [Hv0 _].
+      change (ReplicaMono.st_of (on_proposal cfg s (m_key m) (m_sig_ok m) p j))
+        with (st_of (on_proposal cfg s (m_key m) (m_sig_ok m) p j)) in Hv0.
+      destruct (on_proposal cfg s (m_key m) (m_sig_ok m) p j) as [[s' es] r] eqn:Eo.
+      unfold st_of in E1, E2, Hv0. cbn [fst] in E1, E2, Hv0.
+      assert (Hs' : TB cfg s') by (apply (TB_keep cfg s); assumption).
+      destruct r as [a|e|pp]; try exact Hs'. destruct e; try exact Hs'.
+      pose proof (Hst s' Hv0 E1 E2) as H. destruct (start_timeout cfg s') as [[s2 es2] r2]. exact H.
+    + rewrite rstep_t_other in * by (intros ? ?; rewrite Em; discriminate). cbn [rstep] in *. rewrite Em in *.
+      destruct (on_commit_tcaches cfg s (m_key m) (m_sig_ok m) c Hinv) as [E1 E2].
+      apply (TB_keep cfg s); [exact E1|exact E2| |exact HT]. apply Hmono0.
+    + rewrite rstep_t_other in * by (intros ? ?; rewrite Em; discriminate). cbn [rstep] in *. rewrite Em in *.
+      destruct (on_timeout_cases cfg s (m_key m) (m_sig_ok m) t Hinv) as [(r & E & _)|(i0 & Hk & Hold & Hf & Hsg & Hver & E)].
+      * rewrite E. exact HT.
+      * rewrite E in *. apply timeout_verify_iff in Hver. destruct Hver as ((Hg & He) & _).
+        apply (TB_accept cfg s (m_key m) t i0 Hinv Hchk Hk Hold Hg He Hs); [|exact HT]. apply Hmono0.
+    + rewrite rstep_t_other in * by (intros ? ?; rewrite Em; discriminate). cbn [rstep] in *. rewrite Em in *.
+      apply Hkeep; [apply RC.on_new_view_keeps; reflexivity|apply Hmono0].
+  - unfold rstep_t in *. cbn [rstep] in *.
+    pose proof (RC.start_timeout_keeps cfg s _ eq_refl) as Hk. destruct (keeps_tcaches _ s Hk) as [E1 E2].
+    destruct Hmono0 as [Hv0 _]. cbn [rstep] in Hv0.
+    change (ReplicaMono.st_of (start_timeout cfg s)) with (st_of (start_timeout cfg s)) in Hv0.
+    destruct (start_timeout cfg s) as [[s' es] r] eqn:Eo. unfold st_of in E1, E2, Hv0. cbn [fst] in E1, E2, Hv0.
+    assert (Hs' : TB cfg s') by (apply (TB_keep cfg s); assumption).
+    destruct r as [a|e|pp]; try exact Hs'. destruct e; try exact Hs'.
+    pose proof (Hst s' Hv0 E1 E2) as H. destruct (start_timeout cfg s') as [[s2 es2] r2]. exact H.
+  - unfold rstep_t in *. cbn [rstep] in *.
+    destruct (r_store_next s =? n); unfold hret, st_of; cbn [fst]; exact HT.
+Qed.
